@@ -93,7 +93,10 @@ struct ChannelSlot {
 
 impl ChannelSlot {
     fn new(mio_channel_bound: usize, channel_id: u16) -> (ChannelSlot, IoLoopHandle) {
-        let (mio_tx, mio_rx) = mio_sync_channel(mio_channel_bound);
+        // A bound of 0 would make this a rendezvous channel, which cannot work here: the
+        // I/O thread only receives after being woken up, and the wakeup is sent after a
+        // send completes. Treat it as the smallest workable bound.
+        let (mio_tx, mio_rx) = mio_sync_channel(usize::max(1, mio_channel_bound));
 
         // Bound of 2 is intentional here. The normal case for this channel is that it
         // will have at most 1 message in it (the response to a synchronous RPC call).
